@@ -32,6 +32,8 @@ func checkC02(c *Ctx, r *Report) {
 	r.rule("C02.R7", "every type reachable from the record round-trips through the JSON deep copy of the split (exhaustive over the type graph)", 40)
 	r.rule("C02.R10", "a session reference designates the record of one session only: allocated number, injective construction, writers of ue.Cdr, a new record per new reference (shared with C10.R1/R2/R3/R6) - otherwise usage reported for one session lands in another session's record", 4)
 	r.rule("C02.R11", "the records and containers built in a loop do not share a variable: an address put into the element of an iteration is that of a variable of that iteration", 4)
+	r.rule("C02.R12", "the list of records the subscriber's file is written from only grows: every assignment of ChfUe.Records is an append to itself", 2)
+	r.rule("C02.R13", "the record that continues a session carries its identification: it is a decoder's copy of the closed record, or a record in which every member is assigned that the record opened at creation gets", 1)
 	r.rule("C02.R6", "a record that continues a session starts with a fresh empty usage list (no shared backing array, no repeated containers)", 2)
 
 	c02RecordSelection(c, r)
@@ -40,6 +42,41 @@ func checkC02(c *Ctx, r *Report) {
 	c02Cause(c, r)
 	c02Timestamp(c, r)
 	c02SplitFresh(c, r, "C02.R6")
+	c02ContinuationIdentity(c, r, "C02.R13")
+	// R12: the list the subscriber's file is written from only grows
+	{
+		n := 0
+		for _, f := range c.ModFuncs {
+			eachInstr(f, func(_ *ssa.BasicBlock, _ int, ins ssa.Instruction) {
+				st, ok := ins.(*ssa.Store)
+				if !ok {
+					return
+				}
+				fa, ok := isFieldAddr(st.Addr, ctxPath, "ChfUe", "Records")
+				if !ok {
+					return
+				}
+				n++
+				grows := false
+				if call, ok := stripConv(st.Val).(*ssa.Call); ok {
+					if bi, ok := call.Call.Value.(*ssa.Builtin); ok && bi.Name() == "append" && len(call.Call.Args) >= 1 {
+						if ld, ok := stripConv(call.Call.Args[0]).(*ssa.UnOp); ok && ld.Op == token.MUL {
+							if fa2, ok := isFieldAddr(ld.X, ctxPath, "ChfUe", "Records"); ok && fa2.X == fa.X {
+								grows = true
+							}
+						}
+					}
+				}
+				if rn := rootOf(f).Name(); rn == "init" || rn == "NewCHFUe" {
+					grows = true // the constructor of a context that is not published yet
+				}
+				r.check(grows, "C02.R12", fmt.Sprintf("%s|assignment of ChfUe.Records #%d", fnKey(rootOf(f)), n), posOf(c, st), "the list is extended by append", "ChfUe.Records is assigned "+describe(st.Val)+", not an extension of itself: the subscriber's file is rewritten from this list on every request, so a record that is cut out (the last one, when an older session is released) disappears from the file together with the usage it holds")
+			})
+		}
+		if n == 0 {
+			r.viol("C02.R12", "ChfUe.Records|writers", "", "nothing appends to ChfUe.Records (anchor moved)")
+		}
+	}
 	// R11: no variable shared by the containers / records a loop builds
 	{
 		n := 0
@@ -1660,4 +1697,65 @@ func c02Component(v ssa.Value) string {
 		}
 	}
 	return ""
+}
+
+
+// c02ContinuationIdentity (C02.R13): the ChargingRecord literals built in ChargingDataUpdate
+// (the split) assign every member OpenCDR assigns, except the usage list.
+func c02ContinuationIdentity(c *Ctx, r *Report, rule string) {
+	membersOf := func(f *ssa.Function) (map[string]bool, []*ssa.Alloc) {
+		out := map[string]bool{}
+		var lits []*ssa.Alloc
+		eachInstr(f, func(_ *ssa.BasicBlock, _ int, ins ssa.Instruction) {
+			a, ok := ins.(*ssa.Alloc)
+			if !ok || !typeIs(a.Type(), cdrTypePath, "ChargingRecord") {
+				return
+			}
+			if _, isPP := a.Type().Underlying().(*types.Pointer).Elem().Underlying().(*types.Pointer); isPP {
+				return
+			}
+			lits = append(lits, a)
+		})
+		for _, lit := range lits {
+			for _, ref := range *lit.Referrers() {
+				if fa, ok := ref.(*ssa.FieldAddr); ok {
+					for _, r2 := range *fa.Referrers() {
+						if st, ok := r2.(*ssa.Store); ok && st.Addr == ssa.Value(fa) {
+							out[fieldName(fa)] = true
+						}
+					}
+				}
+			}
+		}
+		// later assignments through the pointer (rec.X.Y = ..): the member X counts
+		eachInstr(f, func(_ *ssa.BasicBlock, _ int, ins ssa.Instruction) {
+			if st, ok := ins.(*ssa.Store); ok {
+				if ap, ok := pathOf(st.Addr); ok && len(ap.Elems) > 0 {
+					for _, lit := range lits {
+						if ap.Root == ssa.Value(lit) {
+							out[ap.Elems[0]] = true
+						}
+					}
+				}
+			}
+		})
+		return out, lits
+	}
+	open, _ := membersOf(c.fn("internal/sbi/processor", "Processor.OpenCDR"))
+	upd := c.fn("internal/sbi/processor", "Processor.ChargingDataUpdate")
+	got, lits := membersOf(upd)
+	key := fnKey(upd) + "|identification of the continuation record"
+	if len(lits) == 0 {
+		r.proven(rule, key, c.rel(upd.Pos()), "the update builds no ChargingRecord of its own: the continuation record is a copy made by the decoder (C02.R7) with its usage list emptied (C02.R6)")
+		return
+	}
+	var missing []string
+	for m := range open {
+		if m == "ListOfMultipleUnitUsage" || got[m] {
+			continue
+		}
+		missing = append(missing, m)
+	}
+	sort.Strings(missing)
+	r.check(len(missing) == 0, rule, key, posOf(c, lits[0]), "every member the record opened at creation gets is assigned in the continuation record as well", "the record that continues a session after the 64 KiB split is built member by member and leaves out "+strings.Join(missing, ", ")+", which the record opened at creation carries: the usage reported after the split is filed in a record without that identification")
 }
